@@ -25,7 +25,7 @@ func TestReplay(t *testing.T) { vp.Replay(t) }
 // nil pointers, zero structs.  Sequential: construct, then Get again several
 // times after the construction has finished.
 type TypedCase struct {
-	Keys   []int `json:"keys"`   // Get sequence
+	Keys   []int `json:"keys"`    // Get sequence
 	NilFor []int `json:"nil_for"` // keys whose constructed value is the nil / zero value
 }
 
